@@ -90,6 +90,10 @@ var lockSpecs = []*locSpec{
 	{dir: "pkg/metrics/prometheus", typ: "prometheusWrapper", field: "gaugeVecMap", kind: "map"},
 	{dir: "pkg/metrics/prometheus", typ: "prometheusWrapper", field: "histogramVecMap", kind: "map"},
 	{dir: "pkg/server/etcd", typ: "watcher", field: "watches", kind: "map"},
+	// the follower's etcd proxy: its background loop follows the leader, the forwarding handlers read the address
+	// (client / err / closed are written by that loop only, under the lock; the loop's own unlocked reads of them are
+	// reads by the single writer and are not tracked)
+	{dir: "pkg/server/service/etcdproxy", typ: "etcdProxy", field: "curLeader", kind: "scalar"},
 }
 
 var containerWrites = map[string]map[string]bool{
